@@ -71,6 +71,50 @@ def run(chk):
                "values are not decided")
 
 
+def _centre_index_pairs(chk, v, di, line):
+    """per block: the value whose term is point2index(TP)[k] (index-like) and the one that is index2point(...)[k'] (centre-like)"""
+    blocks = {}
+    entries = [(st, nm, tt) for st, nm, tt in simple_assigns(v)] + [(s_, nm + "+", tt) for nm, s_, tt in appends(v, v.stmts())]
+    for r_ in v.returns():
+        if isinstance(r_.value, ast.Tuple):        # a helper that hands back (centre, index)
+            entries += [(r_, f"<return#{k_}>", v.term(e_, at=r_)) for k_, e_ in enumerate(r_.value.elts)]
+    for st, nm, tt in entries:
+        hb = v.ctx.head_of(tt)
+        if not (hb and hb[0] == "sub"):
+            continue
+        c = decode_call(v.ctx, v.ctx.args_of(tt)[0])
+        if not c or not is_sym(v.ctx, c[1][0], "self"):
+            continue
+        par = v.cfg.parent.get(id(st))
+        key = (id(par[0]) if par and par[0] is not None else 0, par[1] if par else "")
+        if c[0] == "Mesh.point2index":
+            blocks.setdefault(key, {})["index"] = (st, tt)
+        elif c[0] == "Mesh.index2point":
+            blocks.setdefault(key, {})["centre"] = (st, tt)
+    n_pairs = 0
+    for key, d in blocks.items():
+        n_pairs += 1
+        line += 1
+        ok = False
+        ta = tb = None
+        if "index" in d and "centre" in d:
+            (sa, ta), (sb, tb) = d["centre"], d["index"]
+            p2i, k = v.ctx.args_of(tb)
+            c = decode_call(v.ctx, p2i)
+            want_a = v.ctx.mk(("sub",), (v.ctx.mk(("call", "Mesh.index2point", 2, ()), (v.spec("self"), p2i)), k))
+            ok = v.eq(ta, want_a) and v.eq(k, di)
+            # the test point is the region's lower corner with the requested coordinate at axis k, or the centre
+            tp = c[1][1]
+            tps = stores_of(v.ctx, tp)
+            okt = v.eq(tp, v.spec("self.region.center")) or (len(tps) == 1 and v.eq(tps[0][0], di))
+            ok = ok and okt
+        anyst = (d.get("centre") or d.get("index"))[0]
+        chk.ob(f"mesh.Mesh._sel_convert_input::same-test-point::line{line}", ok, "C07.D1",
+               f"centre {v.show(ta)[:140] if ta is not None else None} and index {v.show(tb)[:140] if tb is not None else None} must be "
+               "index2point(point2index(tp))[k] and point2index(tp)[k] of one test point tp", v.f, anyst)
+    return line, n_pairs
+
+
 # ------------------------------------------------------------------ D1
 def d1_sel_convert(chk, repo):
     chk.rule("C07.D1", "_sel_convert_input: the returned centre and the returned index come from the SAME test point "
@@ -90,41 +134,20 @@ def d1_sel_convert(chk, repo):
            "C07.D1", f"returned axis index {v.show(di)[:120]} must be region._dim2index of the returned dim", v.f, r)
     # per block: the value whose term is point2index(TP)[k] (index-like) and the one that is index2point(...)[k']
     # (centre-like) - found by their form, whatever the variables are called
-    blocks = {}
-    entries = [(st, nm, tt) for st, nm, tt in simple_assigns(v)] + [(s_, nm + "+", tt) for nm, s_, tt in appends(v, v.stmts())]
-    for st, nm, tt in entries:
-        hb = v.ctx.head_of(tt)
-        if not (hb and hb[0] == "sub"):
-            continue
-        c = decode_call(v.ctx, v.ctx.args_of(tt)[0])
-        if not c or not is_sym(v.ctx, c[1][0], "self"):
-            continue
-        par = v.cfg.parent.get(id(st))
-        key = (id(par[0]) if par and par[0] is not None else 0, par[1] if par else "")
-        if c[0] == "Mesh.point2index":
-            blocks.setdefault(key, {})["index"] = (st, tt)
-        elif c[0] == "Mesh.index2point":
-            blocks.setdefault(key, {})["centre"] = (st, tt)
+    # a helper introduced later inside the function (a closure that now holds the duplicated conversion) is searched as well;
+    # what it computes counts once per call site
+    views = [(v, 1, di)]
+    for q2, f2 in repo.funcs.items():
+        if f2.parent is not None and f2.parent.qual == v.f.qual and repo.is_new_function(q2):
+            uses = sum(1 for n_ in ast.walk(v.f.node) if isinstance(n_, ast.Call) and isinstance(n_.func, ast.Name)
+                       and n_.func.id == f2.node.name)
+            w = FV(repo, q2, parent=v)
+            views.append((w, uses, None))
     n_pairs = 0
-    for key, d in blocks.items():
-        n_pairs += 1
-        ok = False
-        ta = tb = None
-        if "index" in d and "centre" in d:
-            (sa, ta), (sb, tb) = d["centre"], d["index"]
-            p2i, k = v.ctx.args_of(tb)
-            c = decode_call(v.ctx, p2i)
-            want_a = v.ctx.mk(("sub",), (v.ctx.mk(("call", "Mesh.index2point", 2, ()), (v.spec("self"), p2i)), k))
-            ok = v.eq(ta, want_a) and v.eq(k, di)
-            # the test point is the region's lower corner with the requested coordinate at axis k, or the centre
-            tp = c[1][1]
-            tps = stores_of(v.ctx, tp)
-            okt = v.eq(tp, v.spec("self.region.center")) or (len(tps) == 1 and v.eq(tps[0][0], di))
-            ok = ok and okt
-        anyst = (d.get("centre") or d.get("index"))[0]
-        chk.ob(f"mesh.Mesh._sel_convert_input::same-test-point::line{n_pairs}", ok, "C07.D1",
-               f"centre {v.show(ta)[:140] if ta is not None else None} and index {v.show(tb)[:140] if tb is not None else None} must be "
-               "index2point(point2index(tp))[k] and point2index(tp)[k] of one test point tp", v.f, anyst)
+    line = 0
+    for vv, weight, axis in views:
+        line, found = _centre_index_pairs(chk, vv, axis if axis is not None else vv.spec("dim_index"), line)
+        n_pairs += found * weight
     chk.require(n_pairs >= 3, f"_sel_convert_input: only {n_pairs} centre/index pairs found (single value, range bound, default)")
     # the slice
     sl = find_assigns(v, lambda t_, s_: (decode_call(v.ctx, t_) or ("",))[0] == "slice")
